@@ -43,8 +43,8 @@ def run_mutant(m, known_oids):
         failed, tool, _ = driver.classify(G, res)
         if tool:
             return {'id': m['id'], 'status': 'undecided', 'detail': tool[0][:300]}
-        hints = [o for o in failed if o not in known_oids and G.obligations[o]['kind'] == 'proof-block']
-        fo = [o for o in failed if o not in known_oids and G.obligations[o]['kind'] != 'proof-block']
+        hints = [o for o in failed if o not in known_oids and G.obligations[o]['kind'] == 'proof-hint']
+        fo = [o for o in failed if o not in known_oids and G.obligations[o]['kind'] != 'proof-hint']
         props = sorted({t for o in fo for t in G.obligations[o]['tags']})
         if fo:
             return {'id': m['id'], 'status': 'killed', 'by': fo[:6], 'props': props}
@@ -105,8 +105,8 @@ def run_seed(sdir, known_oids):
         failed, tool, _ = driver.classify(G, res)
         if tool:
             return {'seed': os.path.basename(sdir), 'status': 'undecided', 'detail': tool[0][:200], 'expected': meta.get('detected_by')}
-        hints = [o for o in failed if o not in known_oids and G.obligations[o]['kind'] == 'proof-block']
-        fo = [o for o in failed if o not in known_oids and G.obligations[o]['kind'] != 'proof-block']
+        hints = [o for o in failed if o not in known_oids and G.obligations[o]['kind'] == 'proof-hint']
+        fo = [o for o in failed if o not in known_oids and G.obligations[o]['kind'] != 'proof-hint']
         props = sorted({t for o in fo for t in G.obligations[o]['tags']})
         hprops = sorted({t for o in hints for t in G.obligations[o]['tags']} - set(props))
         return {'seed': os.path.basename(sdir), 'status': 'alarm' if fo else ('undecided' if hints else 'silent'), 'props': props, 'undecided_props': hprops,
